@@ -121,7 +121,19 @@ impl TxWal {
         let file = OpenOptions::new().create(true).append(true).open(&path)?;
 
         // Get current file size
-        let current_size = file.metadata().map(|m| m.len()).unwrap_or(0);
+        let mut current_size = file.metadata().map(|m| m.len()).unwrap_or(0);
+
+        // Repair a torn tail. A crash can leave a partially written record at the end of
+        // the file. Appending after it would put every later (acknowledged) record behind
+        // bytes that replay cannot parse, so cut the file back to its last complete record.
+        if current_size > 0 {
+            let complete = Self::complete_prefix_len(&path, current_size)?;
+            if complete < current_size {
+                file.set_len(complete)?;
+                file.sync_all()?;
+                current_size = complete;
+            }
+        }
 
         let entry_count = Self::count_entries(&path)?;
 
@@ -132,6 +144,29 @@ impl TxWal {
             current_size,
             config,
         })
+    }
+
+    /// Length of the longest prefix of the file that consists of complete records
+    /// (`[length][checksum][payload]`). Anything after it is a partially written record.
+    fn complete_prefix_len(path: &Path, file_len: u64) -> io::Result<u64> {
+        let mut reader = BufReader::new(File::open(path)?);
+        let mut offset = 0u64;
+        loop {
+            let mut header = [0u8; 8];
+            match reader.read_exact(&mut header) {
+                Ok(()) => {},
+                Err(e) if e.kind() == io::ErrorKind::UnexpectedEof => break,
+                Err(e) => return Err(e),
+            }
+            let len = u64::from(u32::from_le_bytes([header[0], header[1], header[2], header[3]]));
+            if offset + 8 + len > file_len {
+                break;
+            }
+            #[allow(clippy::cast_possible_wrap)] // len <= u32::MAX
+            reader.seek_relative(len as i64)?;
+            offset += 8 + len;
+        }
+        Ok(offset)
     }
 
     /// Count entries in an existing WAL file.
